@@ -23,15 +23,27 @@ LEVEL_TEXT = (
     "logged in), C03_guarded_verb_refused, C03_step_login / C03_reuser_drops / C03_bad_pass_never_authorises (one step, ANY world) and "
     "C03_logged_implies_password_supplied (histories of any length). The code is tied by C03_source_obligations: the verb table, "
     "decorator stacks and pre-login handler footprints are regenerated from server.py by py2v and the closed checks are recomputed by "
-    "vm_compute; behaviourally by bounded-exhaustive and random histories against the real server with a spying backend."
+    "vm_compute; behaviourally by bounded-exhaustive and random histories against the real server with a spying backend. "
+    "Round 3: C03_login_handlers_are_reference (today's pass_ / user translate to the reference programs: their only awaits are "
+    "authenticate / notify_logout, get_user); the same programs split at those awaits: C03_suspended_login_handlers_partial (nothing "
+    "handled at the await => the sequential bodies), C03_suspended_pass_authenticated_the_old_user, and the refutations "
+    "C03_pipelined_user_during_pass_refuted / C03_pipelined_user_during_user_refuted (finding F20: with a user manager whose "
+    "authenticate()/get_user() really suspend, a pipelined USER handled at the await leaves the session logged in as a user whose "
+    "password was not supplied; replayed on the real server every run). Transfers served after the command: "
+    "C03_scheduled_worker_fixed_at_command_time and C03_served_object_independent_of_later_session (the object is resolved under the "
+    "issuing login; what is served does not depend on the session of the moment of serving)."
 )
 LEVEL_NOTE = (
     "Trusted: Coq kernel, py2v (footprint extraction is syntactic: connection.<attr> writes, path_io calls, worker spawns), extraction, "
-    "simnet. Modelled not verified: custom user managers; pipelined commands; handler bodies not known to the model are covered only by "
-    "the guard-first rule (their bodies never run before login)."
+    "simnet. Modelled not verified: custom user managers other than suspension (the harness runs MemoryUserManager and subclasses whose "
+    "authenticate()/get_user() suspend; the model lets an arbitrary world transformer run at the two awaits); pipelining is exercised for "
+    "login commands only; handler bodies not known to the model are covered only by the guard-first rule (their bodies never run before "
+    "login). A NEW constructor option that adds a suspension point is invisible to the histories while it is off (seed C03-r2-2): it is "
+    "flagged structurally by C03_login_handlers_are_reference."
 )
 TRUSTED = ["py2v footprint extraction for quit/rest/syst/appe/cdup/user/pass_ (syntactic)"]
-ASSUMPTIONS = ["sequential sessions (one command at a time)", "MemoryUserManager semantics (custom user managers are outside the model)"]
+ASSUMPTIONS = ["the sequential theorems assume no handler runs at another handler's await (true for the shipped MemoryUserManager; finding F20 otherwise)",
+               "MemoryUserManager lookup / password semantics (a custom manager may decide differently; only its suspension is modelled)"]
 
 VERBS = ["PWD", "CWD", "CDUP", "MKD", "RMD", "DELE", "RNFR", "RNTO", "MLST", "LIST", "MLSD", "RETR", "STOR", "APPE", "TYPE", "PBSZ",
          "PROT", "PASV", "EPSV", "ABOR", "REST", "SYST", "FOO"]
